@@ -2,7 +2,7 @@ SPECIFICATION FSpec
 CONSTANTS
   Tables = {"asc3", "desc3", "gap3", "two", "dup3", "mix4"}
   Shapes = {"rw", "w"}
-  Modes = {"echo", "none", "clamp", "raise"}
+  Modes = {"echo", "none", "clamp", "raise", "crash"}
   Xs = {0, 1, 2, 3, 4, 5, 6, 7, 8}
 INVARIANT TypeOK
 INVARIANT ShowsIndexValue
